@@ -68,7 +68,7 @@ CLAIMED["C10"] = dict(
     note="Assumed: bindnode schema strictness (unknown, missing or wrongly typed payload fields are rejected by AssignNode against the embedded .ipldsch) — a dependency behaviour contracts cannot decide here; "
          "the reflection-based slow path of literal.Any (anyAssemble) is abstracted; policy.FromIPLD is used through a trusted contract (its shape is C14).",
     design="DESIGN.md §3 C10")
-for pid in ["C07"]:
+for pid in []:
     NOT_APPLICABLE[pid] = "contracts for this property are not registered yet in this tree (work in progress; see DESIGN.md §6 staging)"
 
 STREAM_NOTE = ("Assumed (trusted, stubs/io.spec): the io.Reader / io.Writer protocol; delivered/written and the fault counters failed/wfailed are ghost history variables of the "
@@ -175,3 +175,15 @@ CLAIMED["C09"] = dict(
          "where a dependency is known to panic on some input the stub carries a `requires` that is discharged); range-over-func iterators terminate; the reflection-based slow path of literal.Any is abstracted. "
          "Not decided (honest gap): the memory bound 'a constant plus a multiple of the input size' apart from the CAR section cap; stack depth of the recursive decoders (bounded by the dependency's own nesting limits, not by go-ucan).",
     design="DESIGN.md §3 C09, §7")
+
+CLAIMED["C07"] = dict(
+    text="Proof of the field-wise inverse between sealing and unsealing, modulo the trusted codec: toIPLD (delegation and invocation) is verified to hand the envelope exactly the model of the token — identifiers and command printed, "
+         "time bounds as whole Unix seconds, optional fields nil exactly when unset, nonce / arguments / proofs / cause / metadata carried over, the policy node with one tuple per statement and its operator; "
+         "tokenFromModel (both) is verified to read every field of a model back (identifiers through did.Parse, command through command.Parse, seconds through OptionalTimestamp: instant = seconds x 10^9) and to accept every model made of "
+         "parseable identifiers, a valid command, a decodable policy, a nonce of >= 12 bytes and time bounds in the safe range; the constructors (New, Root, validate) are verified to accept only tokens whose command the decoder accepts and whose "
+         "time bounds lie in that range. Together with the lemma text_roundtrip of C16 (printing then parsing a DID gives it back, for every generatable key code), command.Parse(s) = s for valid s (C15) and the seconds contract (C04), "
+         "substituting the model of toIPLD into tokenFromModel gives back every field of the original token at whole-second resolution; the generic decoders return a token only through the typed ones (C06).",
+    note="Assumed (trusted): bindnode wrap/unwrap and the DAG-CBOR / DAG-JSON codecs round-trip the model (envelope.ToIPLD is used through a trusted contract naming the model it was given); signing and verification agree for every key algorithm "
+         "(the codec x key-algorithm matrix beyond go-ucan's own code is outside the verified text). The substitution step itself (composing the two verified contracts) is an argument on paper, not a machine-checked lemma: "
+         "the model contains pointers, and lemmas are heap-free. Deep equality of policy leaf values and of metadata / argument values after the round trip rests on the codec assumption.",
+    design="DESIGN.md §3 C07, §7")
